@@ -15,6 +15,12 @@ d = os.path.abspath(sys.argv[1])
 BASE = None
 for i, a in enumerate(sys.argv):
     if a == "--base": BASE = sys.argv[i+1]
+RACE = []
+try:
+    if "-race" in json.dumps(json.load(open(os.path.join(d, "meta.json"))).get("demo_how_to_run", "")):
+        RACE = ["-race"]   # the demonstration says it needs the race detector
+except Exception:
+    pass
 demos = sorted(glob.glob(os.path.join(d, "*_test.go")) + glob.glob(os.path.join(d, "*_test.go.txt")))
 out = {"patch_applies": False, "builds": False, "suite_passes_with_patch": False, "demo_pass_without": None, "demo_fail_with": None, "demos": [os.path.basename(x) for x in demos]}
 
@@ -55,7 +61,7 @@ def rundemos(dst):
         for f in files:
             shutil.copy(f, os.path.join(dst, pd, os.path.basename(f)))
             tests += re.findall(r"^func (Test\w+)\(", open(f).read(), re.M)
-        r = subprocess.run(["go", "test", "-vet=off", "-count=1", "-run", "^(" + "|".join(tests) + ")$", "./" + pd + "/"], cwd=dst, env=ENV, capture_output=True, text=True)
+        r = subprocess.run(["go", "test"] + RACE + ["-vet=off", "-count=1", "-run", "^(" + "|".join(tests) + ")$", "./" + pd + "/"], cwd=dst, env=ENV, capture_output=True, text=True)
         res.append((r.returncode == 0, (r.stdout + r.stderr)[-600:]))
     bypkg = {}
     for demo in demos:
@@ -76,7 +82,7 @@ def rundemos(dst):
             name = os.path.basename(demo).replace(".txt", "")
             shutil.copy(demo, os.path.join(dst, pd, "zz_" + name))
             tests += re.findall(r"^func (Test\w+)\(", open(demo).read(), re.M)
-        r = subprocess.run(["go", "test", "-vet=off", "-count=1", "-run", "^(" + "|".join(tests) + ")$", "./" + pd + "/"], cwd=dst, env=ENV, capture_output=True, text=True)
+        r = subprocess.run(["go", "test"] + RACE + ["-vet=off", "-count=1", "-run", "^(" + "|".join(tests) + ")$", "./" + pd + "/"], cwd=dst, env=ENV, capture_output=True, text=True)
         res.append((r.returncode == 0, (r.stdout + r.stderr)[-600:]))
     return res
 
